@@ -45,6 +45,16 @@ names = [
  ('clear_any_state', "Clear(shrink) in any state satisfying Inv (e.g. an interrupted migration): the result satisfies Inv, is empty, and has at most one table (older generations are released)."),
  ('reachable_cap_ok', "the premise CapOk of the previous theorem (mCapacity <= physical size of the newest table) holds in every state reachable from the empty container that has a table, for every history and failure schedule."),
  ('insert_never_fails_check', "since the fix of pvAddGrow (size loop instead of MOMO_CHECK(newCapacity > mCount)): in every reachable state, whatever failed before, no insertion ends in a capacity-check failure (model result RCheck), i.e. an overloaded table can always try to grow again."),
+ ('model_parameters_are_source', """T-gen tie.  The leaf arithmetic of the growth decision and of the probe sequence is regenerated from /repo's headers by
+   cxx2coq on every run (Gen_*.v: HashBucketBase / HashBucketOpen2N2<N> / HashBucketOpen8 ::CalcCapacity and
+   ::GetBucketCountShift, BucketBase / BucketOpen2N2 / BucketOpen8 ::GetStartBucketIndex / GetNextBucketIndex,
+   HashSetBuckets::GetCount).  On the domain of real tables (2^L buckets, L <= 62, no size_t overflow of
+   bucketCount*maxCount, index and probe below the bucket count) these GENERATED functions are equal to the functions the
+   model of every configuration is instantiated with and that all theorems above talk about (bcount, start_mask,
+   next_linear / next_tri, cc_base / cc_open, sh_base / sh_open).  A change of any of these C++ functions changes the
+   regenerated Gallina and breaks this proof."""),
+ ('same_code_open2n2_policy', "HashBucketOpen2N2<1> and HashBucketOpen2N2<3> translate to the same Gallina (maxCount is a Section variable): one proof covers all instantiations."),
+ ('same_code_open_index', "BucketOpen8 and BucketOpen2N2 have the same GetNextBucketIndex."),
  ('concrete_kind_ok', "the hypotheses kind_ok hold for the concrete kinds used by the extracted model (mask start index, linear and triangular probing, exact max-probe bound, both growth policies)."),
  ('linear_kind_ok2', "kind_ok2 holds for linear probing (LimP4 / One) with both capacity policies (triangular probing: next theorem)."),
  ('tri_kind_ok2', "kind_ok2 holds for triangular probing (Open2N2 / Open8) on power-of-two tables: every bucket is reached within bucketCount probes (tri_inj + pigeonhole, ProbeSeq.v copied from C13)."),
@@ -56,13 +66,13 @@ names = [
  ('ex_refused_until_full', "non-vacuity: with every growth refused a 2-bucket Open2N2<3> table accepts insertions up to 6 items through the fallback path, then reports full."),
 ]
 hdr = '''From Coq Require Import ZArith List Bool Permutation.
-From C11 Require Import GrowModel.
+From C11 Require Import GrowModel GenTie.
 Import ListNotations.
 Local Open Scope Z_scope.
 Set Printing Width 130.
 '''
 open('chk.v','w').write(hdr + '\n'.join('Check %s.' % n for n, _ in names) + '\n')
-out = subprocess.run(['coqc','-Q','.','C11','chk.v'],capture_output=True,text=True).stdout
+out = subprocess.run(['coqc','-Q','.','C11','-Q','../../../coq/common','MomoCommon','chk.v'],capture_output=True,text=True).stdout
 blocks = re.split(r'\n(?=\w+\n     : )', out.strip())
 types = {}
 for b in blocks:
@@ -75,7 +85,7 @@ res = '''(* Property C11 -- theorems only.  Each is closed by `exact <lemma>` an
    UpdateMaxProbe never under-approximates, the growth policy does not shrink / probing reaches every bucket,
    CalcCapacity <= physical size); they are proved below for the kinds used by the extracted model. *)
 From Coq Require Import ZArith List Bool Permutation.
-From C11 Require Import GrowModel.
+From C11 Require Import GrowModel GenTie.
 Import ListNotations.
 Local Open Scope Z_scope.
 
